@@ -11,8 +11,8 @@
 EXTENDS HostFrame, TLC, FiniteSets
 
 CONSTANTS MaxLenEmpty, MaxLenSeed, Alphabet, Code, LongN
-VARIABLES frame, grow
-vars == <<frame, grow>>
+VARIABLES frame, grow, phase
+vars == <<frame, grow, phase>>
 
 Rsp(pd) == InfoFrame(<<213, (Code + 1) % 256>> \o pd)
 ExtRsp(pd) == LET body == <<213, (Code + 1) % 256>> \o pd
@@ -23,18 +23,20 @@ Templates == { Rsp(<<>>), Rsp(<<0>>), Rsp(<<0, 1, 2, 3>>), Rsp(<<1>>),
                ExtRsp(<<>>), ExtRsp(<<0, 17, 34>>), ExtRsp([i \in 1..LongN |-> (i * 7) % 256]),
                ErrFrame, AckFrame, Pn53xCmd(Code, <<1, 2>>) }
 
-OneByte(t) == {[t EXCEPT ![i] = b] : i \in 1..Len(t), b \in Byte}
-Cuts(t) == {SubSeq(t, 1, n) : n \in 0..Len(t)}
-Exts(t) == {Append(t, b) : b \in Byte}
-TailPair(t) == {[t EXCEPT ![Len(t) - 1] = a, ![Len(t)] = b] : a \in Byte, b \in Byte}
-Corrupted == UNION {OneByte(t) \cup Cuts(t) \cup Exts(t) \cup (IF Len(t) <= 16 THEN TailPair(t) ELSE {}) : t \in Templates}
-
-Init == \/ frame = <<>> /\ grow = MaxLenEmpty
-        \/ frame = Preamble /\ grow = MaxLenSeed
-        \/ frame \in Corrupted /\ grow = 0
-Next == /\ Len(frame) < grow
+\* corruption is a transition from a template state (phase "tpl") to a leaf, so that TLC's workers share it
+Init == \/ frame = <<>> /\ grow = MaxLenEmpty /\ phase = "grow"
+        \/ frame = Preamble /\ grow = MaxLenSeed /\ phase = "grow"
+        \/ frame \in Templates /\ grow = 0 /\ phase = "tpl"
+Grow == /\ phase = "grow" /\ Len(frame) < grow
         /\ \E b \in Alphabet : frame' = Append(frame, b)
-        /\ UNCHANGED grow
+        /\ UNCHANGED <<grow, phase>>
+Corrupt == /\ phase = "tpl" /\ phase' = "leaf" /\ UNCHANGED grow
+           /\ \/ \E i \in 1..Len(frame), b \in Byte : frame' = [frame EXCEPT ![i] = b]      \* one byte
+              \/ \E n \in 0..Len(frame) : frame' = SubSeq(frame, 1, n)                     \* truncation
+              \/ \E b \in Byte : frame' = Append(frame, b)                                 \* extension
+              \/ /\ Len(frame) <= 16                                                       \* DCS + postamble
+                 /\ \E a \in Byte, b \in Byte : frame' = [frame EXCEPT ![Len(frame) - 1] = a, ![Len(frame)] = b]
+Next == Grow \/ Corrupt
 Spec == Init /\ [][Next]_vars
 
 Equiv == ValidPn53xRsp(frame, Code) <=> ParserAccepts(frame, Code)
@@ -47,7 +49,7 @@ Disc == LET o == NfcpyPn53x(frame, Code)
             \/ v /\ o # "Data"
             \/ o = "ChipError" /\ ~LooksLikeError(frame)) => PrintT(<<"DISC", o, frame>>)
 
-W_Valid == ~(grow > 0 /\ ValidPn53xRsp(frame, Code))
+W_Valid == ~(phase = "grow" /\ ValidPn53xRsp(frame, Code))
 W_ValidExt == ~(ValidPn53xRsp(frame, Code) /\ IsExt(frame))
-W_Rejected == ~(grow = 0 /\ ~ValidPn53xRsp(frame, Code) /\ Len(frame) > 9)
+W_Rejected == ~(phase = "leaf" /\ ~ValidPn53xRsp(frame, Code) /\ Len(frame) > 9)
 =============================================================================
